@@ -122,7 +122,7 @@ __CPROVER_ensures_chars((AP_RV > 0 && (*comp)->type == attr_pcomp_type_index && 
  * out all ATTR_PATH_COMP_MAX = 64 slots exhausts the solver's memory in attr_path_destroy; 8 slots take 8 minutes).  Key strings live in objects
  * of AP_KEY_OBJ bytes with a NUL in the last byte: keys of 0..AP_KEY_OBJ-1 characters. */
 #define AP_SHAPE_N 4
-#define AP_KEY_OBJ 16
+#define AP_KEY_OBJ 8
 #define AP_SLOT_OK(p, i) ((i) < (p)->num_comps ==> (__CPROVER_is_fresh((p)->comps[i], sizeof(struct attr_pcomp)) && \
     ((p)->comps[i]->type == attr_pcomp_type_key || (p)->comps[i]->type == attr_pcomp_type_index) && \
     ((p)->comps[i]->type == attr_pcomp_type_key ==> (__CPROVER_is_fresh((p)->comps[i]->key, AP_KEY_OBJ) && (p)->comps[i]->key[AP_KEY_OBJ - 1] == 0))))
